@@ -48,6 +48,8 @@ def cases(tier, sd):
         out.append(dict(kind='over_time', seed=100 * sd + r))
     for r in range(6 if tier == "quick" else 30):
         out.append(dict(kind='io', seed=100 * sd + r))
+    for r in range(2 if tier == "quick" else 8):
+        out.append(dict(kind='excised', seed=100 * sd + r))
     return out
 
 
@@ -215,6 +217,34 @@ def run_io(spec, res):
                 common.add_violation(res, f"{lab} modified", {})
             else:
                 res['nontrivial'].append(['io', lab])
+        # ---- Einstein Toolkit reader: every component of the tensors spelled out
+        from lib import etgen
+        from props import c11
+        espec = c11.gen_spec(7000 + int(spec['seed']), 'quick')
+        eroot = os.path.join(tmp, 'et')
+        os.makedirs(eroot)
+        eparam = etgen.make_sim(eroot, espec)
+        rl = min(espec['levels'])
+        pool = sorted({i for rs in espec['restarts'] for i in rs['its'].get(rl, [])})
+        ev = [etgen.aurel_name(v) for v in espec['vars']]
+        ei = [int(pool[0]), int(pool[-1])]
+        for split in (False, True):
+            s3 = dict(vars=list(ev), it=list(ei), param=dict(eparam))
+            try:
+                with common.Quiet():
+                    A.read_data(eparam, vars=ev, it=ei, rl=rl, split_per_it=split,
+                                skip_last=False, verbose=False)
+            except Exception:
+                break             # layouts the reader refuses are C11's subject
+            for lab, ok in {"read_data (ET): vars list": ev == s3['vars'],
+                            "read_data (ET): it list": ei == s3['it'],
+                            "read_data (ET): param dict": eparam == s3['param']}.items():
+                res['observations'] += 1
+                if not ok:
+                    common.add_violation(res, f"{lab} modified", {"before": s3['vars'], "after": ev})
+                    ev, ei = list(s3['vars']), list(s3['it'])
+                else:
+                    res['nontrivial'].append(['io', lab, split])
     finally:
         shutil.rmtree(tmp, ignore_errors=True)
 
@@ -267,7 +297,49 @@ def run_sweep(spec, res):
         res['nontrivial'].append(['sweep', style, len(ops)])
 
 
+def run_excised(spec, res):
+    """Wave data with an excised (NaN) interior and an infinite value at a
+    puncture: whatever is handed out (the inputs, Weyl_Psi, the grid) keeps its
+    bytes while the mode decomposition is computed."""
+    rng = np.random.default_rng([int(spec['seed']), 75])
+    N, L = 24, 6.0
+    d = L / (N - 1)
+    fd = harness.make_fd(N, -L / 2, d, order=4)
+    x, y, z = harness.coords(N, -L / 2, d)
+    r = np.sqrt(x * x + y * y + z * z)
+    p4 = (rng.normal(size=x.shape) + 1j * rng.normal(size=x.shape)) * np.exp(-r)
+    p4[r < 0.8] = np.nan
+    p4[N // 2, N // 2, N // 2 + 1] = np.inf
+    inp = {'Weyl_Psi4r': p4.real.copy(), 'Weyl_Psi4i': p4.imag.copy()}
+    rel = harness.make_rel(fd, inp, lmax=2, extract_radii=[1.6, 2.2],
+                           interp_method=['linear', 'cubic'][spec['seed'] % 2])
+    ledger = monitor.ArrayLedger()
+    ledger.register(inp, "input:", "start")
+    ledger.register({k: getattr(fd, k) for k in ('xarray', 'yarray', 'zarray', 'cartesian_coords')},
+                    "grid:", "start")
+    hits = []
+    for k in ('Weyl_Psi', 'Psi4_lm', 'Weyl_Psi', 'Psi4_lm'):
+        with common.Quiet(), np.errstate(all='ignore'):
+            try:
+                v = rel[k]
+            except Exception as e:
+                res['notes'].append(f"{k} raises {type(e).__name__} on excised data")
+                continue
+        ledger.register(v, f"returned:{k}", k)
+        ledger.register(rel.data, "cached:", k)
+        hits += ledger.audit(f"x:{k}")
+        res['observations'] += len(ledger.entries)
+    for b in hits:
+        nm = b['role'].split(':', 1)[1]
+        common.add_violation(res, f"in-place change of {b['role'].split(':')[0]} array "
+                                  f"'{nm.split('[')[0] or nm}' by request {b['after_op'].split(':', 1)[1]} "
+                                  "(non-finite wave data)", b)
+    if not hits:
+        res['nontrivial'].append(['excised', spec['seed'] % 2])
+
+
 def run_case(spec):
     res = common.new_result(spec)
-    {'walk': run_walk, 'sweep': run_sweep, 'over_time': run_over_time, 'io': run_io}[spec['kind']](spec, res)
+    {'walk': run_walk, 'sweep': run_sweep, 'over_time': run_over_time, 'io': run_io,
+     'excised': run_excised}[spec['kind']](spec, res)
     return res
